@@ -62,6 +62,13 @@ def cases(tier, rng):
         c["model"] = False
         c["tags"]["away"] = True
         cs.append(c)
+    # ... and the same with the local connections arriving TOGETHER while the server is away (they all find the session dead; one
+    # re-open fails; the others must fail too, not crash) - three rounds, the interleaving is the scheduler's
+    for ups in (["oksecure"], ["refused", "okinsecure"]):
+        c = mk(0, "none", ups, ["conn", "wait -1000", "wait -4", "conn", "conn", "conn", "conn", "wait -4", "conn", "conn", "conn", "conn", "wait -1001", "conn", "conn"], "server-away-together")
+        c["model"] = False
+        c["tags"]["away_together"] = True
+        cs.append(c)
     # a DNS upstream whose tunnel answers while its session layer never does (implementation only: the tunnel's own negotiation runs
     # for real over loopback UDP): it is abandoned at the handshake bound and the next upstream is used
     for ups in (["dnssilent"], ["dnssilent", "oksecure"]):
@@ -108,6 +115,13 @@ def oracle(case, impl):
     phys = [int(x) for x in p[i + 1:]]
     firstgood = next((k for k, b in enumerate(ups) if good(must, b)), None)
     out = []
+    if case.get("tags", {}).get("away_together"):
+        kinds = [k for k, _ in res]
+        if "hang" in kinds:
+            return [("unbounded;server-away", "a local connection neither connected nor failed while the server was away or after it came back: " + impl)]
+        if kinds[0] != "up" or kinds[1:9] != ["fail"] * 8 or kinds[9:] != ["up", "up"]:
+            return [("no-reconnect;server-away", "expected: connected, eight failures while the server was away, connected twice after it came back; got " + impl)]
+        return []
     if case.get("tags", {}).get("away"):
         kinds = [k for k, _ in res]
         if "hang" in kinds:
